@@ -563,6 +563,15 @@ def _large_cases(ctx: Ctx):
             ("TrefethenGeneral", (N, "Trapezoidal", 9)), ("TrefethenStripGeneral", (N, "MidPoint", 1.1))]
     if ctx.thorough:
         out += [("GaussLaguerre", (150, 0.5))]   # (leggauss(2000) alone takes minutes: Gauss-Legendre stays at n <= 400)
+    # round 5, class 21: sizes just above a power of two that are no multiple of 2^k or {1,2,5} 10^k
+    for cls in ["UniformInteger", "GaussChebyshevLobatto", "Trapezoidal", "Simpson", "MidPoint", "GaussChebyshev", "GaussChebyshevType2"]:
+        out.append((cls, (4099,)))
+    for cls in ["RectangleRuleSineEndPoints", "ClenshawCurtis", "FejerFirst", "FejerSecond"]:
+        out.append((cls, (1031,)))
+    for cls in STEP:
+        out.append((cls, (4099, 0.001 if cls in ("TanhSinh", "LogExpSinh") else 0.002)))
+    out += [("TrefethenGC2", (4099, 9)), ("TrefethenStripGC2", (4099, 1.3)), ("TrefethenCC", (1031, 5)), ("TrefethenStripCC", (1031, 1.2)),
+            ("TrefethenGeneral", (4099, "GaussChebyshev", 5)), ("TrefethenStripGeneral", (4099, "Trapezoidal", 1.7))]
     res = []
     for cls, args in out:
         src = _src(cls, *[f"og.{a}" if isinstance(a, str) else repr(a) for a in args])
@@ -2281,6 +2290,413 @@ def _oracle_shapes(ctx, og, rng):
                 _ref_fail(ctx, cls, [n], f"og.{cls}({n})", [], g=g)
 
 
+# ----------------------------------------------------------------------------------------------
+# round 5
+# ----------------------------------------------------------------------------------------------
+BLOCK_SIZES = [1025, 4097, 20001, 31234, 65537]       # no multiple of 2^k or {1,2,5} 10^k, just above such values
+
+
+def _elementwise_reference(cls, n):
+    """nodes / weights of the element-wise rules, every element from its own index (NumPy, float64) -> (x, w, domain)"""
+    i = np.arange(n, dtype=float)
+    if cls == "UniformInteger":
+        return i, np.ones(n), (0.0, math.inf)
+    if cls in ("Trapezoidal", "Simpson"):
+        x = -1 + 2 * i / (n - 1)
+        if cls == "Trapezoidal":
+            w = np.full(n, 2 / (n - 1))
+            w[[0, -1]] /= 2
+        else:
+            w = np.where(np.arange(n) % 2 == 1, 4.0, 2.0) * 2 / (3 * (n - 1))
+            w[[0, -1]] /= 2
+        return x, w, (-1.0, 1.0)
+    if cls == "MidPoint":
+        return -1 + (2 * i + 1) / n, np.full(n, 2 / n), (-1.0, 1.0)
+    if cls == "GaussChebyshevLobatto":
+        t = (n - 1 - i) * math.pi / (n - 1)
+        w = math.pi * np.sin(t) / (n - 1)
+        return np.cos(t), w, (-1.0, 1.0)
+    if cls == "GaussChebyshev":
+        t = (2 * (n - 1 - i) + 1) * math.pi / (2 * n)
+        return np.cos(t), math.pi / n * np.sin(t), (-1.0, 1.0)
+    if cls == "GaussChebyshevType2":
+        t = (n - i) * math.pi / (n + 1)
+        return np.cos(t), math.pi / (n + 1) * np.sin(t), (-1.0, 1.0)
+    raise KeyError(cls)
+
+
+def _oracle_block_sizes(ctx, og, rng, thorough):
+    """Class 21: sizes past every plausible block / chunk boundary (1025, 4097, 20001, 31234, 65537; thorough 2^19 + 1) on
+    the rules that are pure array evaluations and on plain `OneDGrid`s with synthetic points.  References: every element
+    from its own index; low-degree exactness; additivity over a split of the same input."""
+    from grid.basegrid import OneDGrid
+    sizes = BLOCK_SIZES + ([2 ** 19 + 1] if thorough else [])
+    for cls in ("UniformInteger", "Trapezoidal", "Simpson", "MidPoint", "GaussChebyshevLobatto", "GaussChebyshev", "GaussChebyshevType2"):
+        for n0 in sizes:
+            n = n0 + 1 if (cls == "Simpson" and n0 % 2 == 0) else n0
+            g = _build(og, cls, n)
+            key = f"onedgrid.{cls}"
+            if g is None:
+                ctx.fail("oracle", key, f"{cls}({n}) rejected although admissible", witness={"class": cls, "npoints": n})
+                continue
+            x, w, dom = _elementwise_reference(cls, n)
+            ok = len(g.points) == n and len(g.weights) == n and tuple(float(v) for v in g.domain) == dom
+            if ok:
+                dx, dw = np.abs(np.asarray(g.points, dtype=float) - x), np.abs(np.asarray(g.weights, dtype=float) - w)
+                ok = float(dx.max()) <= 1e-12 * max(1.0, float(np.abs(x).max())) and float(dw.max()) <= 1e-13 * max(1e-3, float(np.abs(w).max())) * 10
+            if not ok:
+                if len(g.points) == n and len(g.weights) == n:
+                    i = int(np.argmax(dx)) if float(dx.max()) > 1e-12 * max(1.0, float(np.abs(x).max())) else int(np.argmax(dw))
+                    what = f"node/weight {i} = ({float(g.points[i])!r}, {float(g.weights[i])!r}), its definition gives ({float(x[i])!r}, {float(w[i])!r})"
+                else:
+                    i, what = -1, f"{len(g.points)} nodes / {len(g.weights)} weights"
+                ctx.fail("oracle", key, f"{cls}({n}): {what}", witness={"class": cls, "npoints": n, "index": i},
+                         snippet=(f"import warnings; warnings.filterwarnings('ignore')\nimport numpy as np, math\nfrom grid import onedgrid as og\n"
+                                  f"g = og.{cls}({n})\nassert len(g.points) == {n} and len(g.weights) == {n}, 'size'\ni = {max(i, 0)}\n"
+                                  f"assert abs(float(g.points[i]) - {float(x[max(i, 0)])!r}) <= 1e-11 and abs(float(g.weights[i]) - {float(w[max(i, 0)])!r}) <= 1e-13, "
+                                  f"f'{cls}({n}) entry {{i}}: ({{float(g.points[i])!r}}, {{float(g.weights[i])!r}})'\n"))
+    # the O(n^2) series rules: 1025 (quick) and 4097 -- nodes by their definition, exactness on low and middle degrees
+    for cls, sizes2 in (("ClenshawCurtis", [1025, 4097]), ("FejerFirst", [1025, 4097]), ("FejerSecond", [1025] + ([4097] if thorough else [])),
+                        ("RectangleRuleSineEndPoints", [1025] + ([4097] if thorough else []))):
+        for n in sizes2:
+            g = _build(og, cls, n)
+            if g is None:
+                ctx.fail("oracle", f"onedgrid.{cls}", f"{cls}({n}) rejected although admissible", witness={"class": cls, "npoints": n})
+                continue
+            i = np.arange(n, dtype=float)
+            x = {"ClenshawCurtis": -np.cos(i * math.pi / (n - 1)), "FejerFirst": -np.cos((2 * i + 1) * math.pi / (2 * n)),
+                 "FejerSecond": -np.cos((i + 1) * math.pi / (n + 1)), "RectangleRuleSineEndPoints": 2 * (i + 1) / (n + 1) - 1}[cls]
+            p, w = np.asarray(g.points, dtype=float), np.asarray(g.weights, dtype=float)
+            bad = None
+            if len(p) != n or len(w) != n:
+                bad = f"{len(p)} nodes / {len(w)} weights"
+            elif float(np.abs(p - x).max()) > 1e-12:
+                j = int(np.argmax(np.abs(p - x)))
+                bad = f"node {j} = {float(p[j])!r}, definition {float(x[j])!r}"
+            elif cls != "RectangleRuleSineEndPoints":
+                for k in (0, 1, 2, 10, 51, 200):
+                    got = math.fsum((w * p ** k).tolist())
+                    want = 0.0 if k % 2 else 2 / (k + 1)
+                    if abs(got - want) > 1e-11:
+                        bad = f"sum w_i x_i^{k} = {got!r}, integral {want!r}"
+                        break
+            if bad:
+                ctx.fail("oracle", f"onedgrid.{cls}" + (":below-known-defect" if cls == "FejerSecond" else ""), f"{cls}({n}): {bad}",
+                         witness={"class": cls, "npoints": n})
+    # step rules and the O(n) Trefethen maps: identities, and additivity over a split of the base rule
+    for cls in STEP:
+        for n0 in sizes:
+            n = n0 + 1 if n0 % 2 == 0 else n0
+            h = 5.0 / n * rng.uniform(0.5, 1.0)
+            g = _build(og, cls, n, h)
+            bad = ["rejected"] if g is None else step_checks(cls, n, h, g.points, g.weights)
+            if bad:
+                ctx.fail("oracle", f"onedgrid.{cls}", f"{cls}({n}, {h!r}): " + "; ".join(bad[:3]), witness={"class": cls, "npoints": n, "h": h})
+
+    def part_class(base, n, lo, hi):
+        class Part(OneDGrid):
+            def __init__(self, npoints):
+                b = getattr(og, base)(n)
+                super().__init__(np.array(b.points[lo:hi]), np.array(b.weights[lo:hi]), b.domain)
+        return Part
+
+    for n in sizes[:3] + sizes[-1:]:
+        base = rng.choice(["GaussChebyshevType2", "GaussChebyshev", "MidPoint", "Trapezoidal"])
+        cut = rng.choice([1024, 1023, n // 2, n - 1, 1])
+        for cls, par in (("TrefethenGeneral", rng.choice([5, 9])), ("TrefethenStripGeneral", round(rng.uniform(1.1, 3.0), 2))):
+            with warnings.catch_warnings():
+                warnings.simplefilter("ignore")
+                full = getattr(og, cls)(n, getattr(og, base), par)
+                a = getattr(og, cls)(n, part_class(base, n, 0, cut), par)
+                b = getattr(og, cls)(n, part_class(base, n, cut, n), par)
+            fp, fw = np.asarray(full.points), np.asarray(full.weights)
+            cp, cw = np.concatenate([a.points, b.points]), np.concatenate([a.weights, b.weights])
+            # (not bit for bit: NumPy's vectorised loops round the last bit differently in the head / tail of an array)
+            if len(fp) != n or not (np.allclose(fp, cp, rtol=1e-13, atol=1e-15) and np.allclose(fw, cw, rtol=1e-13, atol=1e-300)):
+                j = int(np.argmax(~np.isclose(fp, cp, rtol=1e-13, atol=1e-15) | ~np.isclose(fw, cw, rtol=1e-13, atol=1e-300))) if len(fp) == len(cp) else -1
+                ctx.fail("oracle", f"onedgrid.{cls}", f"{cls}({n}, {base}, {par}): not the concatenation of the same map applied to the base nodes [0:{cut}] and [{cut}:{n}] "
+                         f"(first difference at index {j}: {float(fp[j]) if j >= 0 else None!r} vs {float(cp[j]) if j >= 0 else None!r}; {len(fp)} nodes)",
+                         witness={"class": cls, "base": base, "npoints": n, "param": par, "cut": cut, "index": j})
+    # plain OneDGrid with synthetic points: the domain check reaches the last element, integrate is the full sum
+    for n in sizes:
+        p = np.array(ctx.np_rng.uniform(0.0, 1.0, n))
+        w = np.array(ctx.np_rng.uniform(0.5, 1.5, n))
+        f = np.array(ctx.np_rng.uniform(-1.0, 1.0, n))
+        g = OneDGrid(p, w, (0, 1))
+        k = rng.choice([1024, n // 3, n - 1])
+        got = float(g.integrate(f))
+        want = math.fsum((w * f).tolist())
+        parts = float(g[:k].integrate(f[:k])) + float(g[k:].integrate(f[k:]))
+        if abs(got - want) > 1e-12 * n ** 0.5 or abs(got - parts) > 1e-12 * n ** 0.5 or g.size != n:
+            ctx.fail("oracle", "basegrid.OneDGrid:block", f"OneDGrid of {n} points: integrate = {got!r}, sum w_i f_i = {want!r}, over the split at {k}: {parts!r}",
+                     witness={"npoints": n, "split": k, "np_seed": ctx.seed})
+        for pos in (n - 1, 1024, n - 2):
+            q = p.copy()
+            q[pos] = 1.0 + 1e-5
+            try:
+                OneDGrid(q, w, (0, 1))
+                ctx.fail("oracle", "basegrid.OneDGrid:domain-check", f"OneDGrid of {n} points accepted a point 1e-5 outside the domain at index {pos}",
+                         witness={"npoints": n, "index": pos},
+                         snippet=(f"import numpy as np\nfrom grid.basegrid import OneDGrid\np = np.full({n}, 0.5); p[{pos}] = 1.0 + 1e-5\ntry:\n    OneDGrid(p, np.ones({n}), (0, 1))\n"
+                                  f"except ValueError:\n    pass\nelse:\n    raise AssertionError('a point outside the domain at index {pos} of {n} was accepted')\n"))
+            except ValueError:
+                pass
+
+
+def _oracle_order(ctx, og, rng):
+    """Classes 22 and 24: node arrays in an order the code may assume.  A base rule handed to the Trefethen...General classes in
+    descending and in shuffled order (the maps act node by node: the result is the same permutation of the ascending
+    result, provided the mapped nodes are accepted), reversed `OneDGrid`s (`g[::-1]`), one explicit parameter applied to two
+    different base rules alternately."""
+    from grid.basegrid import OneDGrid
+
+    def permuted(base, perm_of):
+        class Perm(OneDGrid):
+            def __init__(self, npoints):
+                with warnings.catch_warnings():
+                    warnings.simplefilter("ignore")
+                    b = getattr(og, base)(npoints)
+                pm = perm_of(npoints)
+                super().__init__(np.array(b.points[pm]), np.array(b.weights[pm]), b.domain)
+        return Perm
+
+    for base in ("ClenshawCurtis", "GaussLegendre", "FejerFirst", "GaussChebyshevType2", "Trapezoidal"):
+        n = rng.randrange(5, 14)
+        sh = list(range(n))
+        rng.shuffle(sh)
+        for name, pm in (("descending", np.arange(n)[::-1]), ("shuffled", np.array(sh))):
+            for cls, par in (("TrefethenGeneral", rng.choice([1, 5, 9])), ("TrefethenStripGeneral", round(rng.uniform(1.1, 3.0), 2))):
+                label = f"{cls}({n}, <{base} with its nodes {name}>, {par})"
+                try:
+                    with warnings.catch_warnings():
+                        warnings.simplefilter("ignore")
+                        ref = getattr(og, cls)(n, getattr(og, base), par)
+                        got = getattr(og, cls)(n, permuted(base, lambda m, pm=pm: pm), par)
+                except Exception as e:
+                    ctx.fail("oracle", f"onedgrid.{cls}:node-order", f"{label} raised {type(e).__name__}: {e}",
+                             witness={"class": cls, "base": base, "npoints": n, "param": par, "order": pm.tolist()})
+                    continue
+                if not (len(got.points) == n and np.allclose(got.points, ref.points[pm], rtol=1e-13, atol=1e-15)
+                        and np.allclose(got.weights, ref.weights[pm], rtol=1e-13, atol=1e-300)):   # (last-bit differences of vectorised loops allowed)
+                    ctx.fail("oracle", f"onedgrid.{cls}:node-order", f"{label}: not the same permutation of the rule built on the ascending base",
+                             witness={"class": cls, "base": base, "npoints": n, "param": par, "order": pm.tolist(),
+                                      "points": [float(v) for v in got.points], "expected": [float(v) for v in ref.points[pm]]})
+    # reversed / strided grids
+    for src in ("og.ClenshawCurtis(8)", "og.GaussLaguerre(6, 0.5)", "og.TanhSinh(9, 0.25)", "og.ExpSinh(7, 0.3)"):
+        with warnings.catch_warnings():
+            warnings.simplefilter("ignore")
+            g = _eval_src(og, src)
+        f = np.cos(g.points)
+        want = math.fsum(float(a) * float(b) for a, b in zip(g.weights, f))
+        for sl, name in ((slice(None, None, -1), "[::-1]"), (slice(None, None, 2), "[::2]"), (slice(-1, 0, -2), "[-1:0:-2]")):
+            h = g[sl]
+            ok = np.array_equal(h.points, g.points[sl]) and np.array_equal(h.weights, g.weights[sl]) and tuple(h.domain) == tuple(g.domain)
+            wsub = math.fsum(float(a) * float(b) for a, b in zip(g.weights[sl], f[sl]))
+            if not ok or abs(float(h.integrate(np.cos(h.points))) - wsub) > 1e-13 * max(1.0, abs(wsub)):
+                ctx.fail("oracle", "basegrid.OneDGrid:node-order", f"{src}{name}: nodes / weights / domain / integral differ from the selected entries",
+                         witness={"call": src, "slice": name})
+        if abs(float(g[::-1].integrate(f[::-1])) - want) > 1e-13 * max(1.0, abs(want)):
+            ctx.fail("oracle", "basegrid.OneDGrid:node-order", f"{src}[::-1].integrate differs from the integral on the ascending grid", witness={"call": src})
+    # one explicit parameter, two different base rules alternately (class 24)
+    n, rho, d = rng.randrange(5, 12), round(rng.uniform(1.1, 3.0), 2), rng.choice([5, 9])
+    seq = ["ClenshawCurtis", "GaussChebyshev", "ClenshawCurtis", "MidPoint", "GaussChebyshev", "ClenshawCurtis"]
+    for cls, par in (("TrefethenStripGeneral", rho), ("TrefethenGeneral", d)):
+        hist = []
+        for base in seq:
+            src = f"og.{cls}({n}, og.{base}, {par})"
+            _ref_fail(ctx, cls, [n, base, par], src, list(hist))
+            hist.append(src)
+
+
+def _oracle_precision_inputs(ctx, og, rng):
+    """Class 23: extended / reduced precision values *given directly*: the extra parameter as np.longdouble / np.float16 /
+    np.float32 scalar (a value all of them hold exactly), `OneDGrid(points, weights)` and `integrate` with longdouble, float32,
+    float16 and integer arrays -- the answer against the float64 one to the precision of the narrower type, the argument
+    unchanged, a second call with the same argument object equal to the first."""
+    from grid.basegrid import OneDGrid
+    vals = {**{c: "0.25" for c in STEP}, "GaussLaguerre": "0.5", "TrefethenStripCC": "1.5", "TrefethenStripGC2": "1.5"}
+    for cls, v in vals.items():
+        n = 7
+        with warnings.catch_warnings():
+            warnings.simplefilter("ignore")
+            ref = _eval_src(og, f"og.{cls}({n}, {v})")
+            for ty, tol in (("np.longdouble", 1e-13), ("np.float16", 2e-3), ("np.float64", 0.0)):
+                src = f"og.{cls}({n}, {ty}({v}))"
+                try:
+                    a, b = _eval_src(og, src), _eval_src(og, src)
+                except Exception as e:
+                    ctx.info(f"out of scope: {src} raised {type(e).__name__}: {e}")
+                    continue
+                dp = float(np.max(np.abs(np.asarray(a.points, dtype=float) - ref.points) / np.maximum(1.0, np.abs(ref.points))))
+                dw = float(np.max(np.abs(np.asarray(a.weights, dtype=float) - ref.weights) / np.abs(ref.weights)))
+                same = np.array_equal(a.points, b.points) and np.array_equal(a.weights, b.weights)
+                if not (dp <= tol and dw <= tol and same):
+                    ctx.fail("oracle", "onedgrid.precision-parameter", f"{src}: nodes differ by {dp:.2e}, weights by {dw:.2e} (relative) from og.{cls}({n}, {v})"
+                             + ("" if same else "; two identical calls differ"),
+                             witness={"class": cls, "call": src, "max_node_diff": dp, "max_rel_weight_diff": dw})
+    m = 33                                                                   # (the sum needs more bits than float16 has: no narrow accumulation)
+    p64 = np.array([rng.randrange(1, 64) / 64 for _ in range(m)])           # exact in every type below
+    w64 = np.array([rng.randrange(1, 32) / 16 for _ in range(m)])
+    f64 = np.array([rng.randrange(-32, 32) / 8 for _ in range(m)])
+    want = math.fsum(float(a) * float(b) for a, b in zip(w64, f64))
+    for ty in (np.longdouble, np.float32, np.float16, np.float64):
+        p, w, f = p64.astype(ty), w64.astype(ty), f64.astype(ty)
+        snap = (p.tobytes(), w.tobytes(), f.tobytes())
+        key = "basegrid.OneDGrid:precision-input"
+        try:
+            g1 = OneDGrid(p, w, (0, 1))
+            r1 = float(g1.integrate(f))
+            g2 = OneDGrid(p, w, (0, 1))
+            r2 = float(g2.integrate(f))
+        except Exception as e:
+            ctx.fail("oracle", key, f"OneDGrid / integrate with {np.dtype(ty).name} arrays raised {type(e).__name__}: {e}", witness={"dtype": np.dtype(ty).name})
+            continue
+        # all three arrays in the narrow type: NumPy accumulates in that type -- the answer to ITS precision; the narrow values on
+        # a float64 grid: to float64 precision (the values are exact in every type)
+        eps = float(np.finfo(ty).eps)
+        scale = math.fsum(abs(float(a) * float(b)) for a, b in zip(w64, f64))
+        try:
+            r3 = float(OneDGrid(p64, w64, (0, 1)).integrate(f))
+        except Exception as e:
+            r3 = f"{type(e).__name__}: {e}"
+        if isinstance(r3, str) or abs(r3 - want) > 1e-12 * max(1.0, abs(want)):
+            ctx.fail("oracle", key, f"integrate of {np.dtype(ty).name} values (exact in that type) on a float64 grid: {r3!r}, float64 answer {want!r}",
+                     witness={"dtype": np.dtype(ty).name, "points": p64.tolist(), "weights": w64.tolist(), "values": f64.tolist()})
+        if not (abs(r1 - want) <= max(1e-12, 4 * eps) * max(1.0, scale) and r1 == r2 and np.array_equal(np.asarray(g1.points, dtype=float), p64)
+                and (p.tobytes(), w.tobytes(), f.tobytes()) == snap):
+            ctx.fail("oracle", key, f"OneDGrid / integrate with {np.dtype(ty).name} arrays (values exact in that type): {r1!r} / second time {r2!r}, float64 answer {want!r}"
+                     + ("" if (p.tobytes(), w.tobytes(), f.tobytes()) == snap else "; an argument was modified"),
+                     witness={"dtype": np.dtype(ty).name, "points": p64.tolist(), "weights": w64.tolist(), "values": f64.tolist()})
+        # a point outside the domain is refused whatever the type (1/64 steps: exact)
+        q = p.copy()
+        q[rng.randrange(m)] = ty(1.5)
+        try:
+            OneDGrid(q, w, (0, 1))
+            ctx.fail("oracle", "basegrid.OneDGrid:domain-check", f"OneDGrid accepted the point 1.5 outside (0, 1) in a {np.dtype(ty).name} array", witness={"dtype": np.dtype(ty).name})
+        except ValueError:
+            pass
+    for ity in (np.int64, np.int32, np.int8, np.uint8):
+        p = np.array([3, 0, 7, 2], dtype=ity)
+        g = OneDGrid(p, np.array([1, 2, 1, 2], dtype=ity), (0, np.inf))
+        r = float(g.integrate(np.array([1, -1, 2, 3], dtype=np.int64)))
+        if r != 1 * 1 + 2 * (-1) + 1 * 2 + 2 * 3 or not np.array_equal(g.points, [3, 0, 7, 2]):
+            ctx.fail("oracle", "basegrid.OneDGrid:precision-input", f"OneDGrid / integrate with {np.dtype(ity).name} arrays: {r!r} instead of 7", witness={"dtype": np.dtype(ity).name})
+        if np.dtype(ity).kind == "i":
+            try:
+                OneDGrid(np.array([3, -1, 2], dtype=ity), np.ones(3), (0, np.inf))
+                ctx.fail("oracle", "basegrid.OneDGrid:domain-check", f"OneDGrid accepted the point -1 outside (0, inf) in a {np.dtype(ity).name} array", witness={"dtype": np.dtype(ity).name})
+            except ValueError:
+                pass
+
+
+def _oracle_inplace(ctx, og, rng):
+    """Class 25: the same array object modified in place between two calls -- for the array arguments of `OneDGrid(points,
+    weights, domain)` and `integrate(*values)`, and for the arrays a quadrature class hands to the Trefethen...General classes:
+    the second answer is the one on a fresh copy of the new contents (nothing remembered by object identity)."""
+    from grid.basegrid import OneDGrid
+    key = "basegrid.OneDGrid:modified-in-place"
+    buf = np.array([rng.uniform(0.1, 0.9) for _ in range(8)])
+    w = np.array([rng.uniform(0.5, 1.5) for _ in range(8)])
+    f = np.array([rng.uniform(-1, 1) for _ in range(8)])
+    g1 = OneDGrid(buf, w, (0, 1))
+    r1 = float(g1.integrate(f, buf))
+    new = np.array([rng.uniform(0.1, 0.9) for _ in range(8)])
+    buf[:] = new
+    f *= 3.0
+    w[...] = w[::-1].copy()
+    want = math.fsum(float(a) * float(b) * float(c) for a, b, c in zip(w, f, new))
+    g2 = OneDGrid(buf, w, (0, 1))
+    r2, r1b = float(g2.integrate(f, buf)), float(g1.integrate(f, buf))
+    fresh = float(OneDGrid(new.copy(), w.copy(), (0, 1)).integrate(f.copy(), new.copy()))
+    if not (abs(r2 - want) <= 1e-13 * max(1.0, abs(want)) and r2 == fresh and r1b == fresh and np.array_equal(g2.points, new)):
+        ctx.fail("oracle", key, f"points / weights / values overwritten in place between two constructions: integrate = {r2!r} (first grid: {r1b!r}), on fresh copies {fresh!r}, exact {want!r}",
+                 witness={"new_points": new.tolist(), "weights": w.tolist(), "values": f.tolist(), "before": r1})
+    buf[3] = 1.5          # now outside the declared domain: an earlier acceptance of this object must not be remembered
+    try:
+        OneDGrid(buf, w, (0, 1))
+        ctx.fail("oracle", "basegrid.OneDGrid:domain-check", "OneDGrid accepted an array that was accepted before and then got a point outside the domain written into it",
+                 witness={"points": buf.tolist()},
+                 snippet="import numpy as np\nfrom grid.basegrid import OneDGrid\nb = np.array([0.2, 0.4, 0.6]); w = np.ones(3)\nOneDGrid(b, w, (0, 1))\nb[1] = 1.5\n"
+                         "try:\n    OneDGrid(b, w, (0, 1))\nexcept ValueError:\n    pass\nelse:\n    raise AssertionError('accepted after the in-place edit')\n")
+    except ValueError:
+        pass
+    # the arrays behind a quadrature class
+    store = {}
+
+    class Buffered(OneDGrid):
+        def __init__(self, npoints):
+            super().__init__(store["p"], store["w"], (-1, 1))
+
+    n = 7
+    with warnings.catch_warnings():
+        warnings.simplefilter("ignore")
+        b1, b2 = og.GaussLegendre(n), og.FejerFirst(n)
+        store["p"], store["w"] = b1.points.copy(), b1.weights.copy()
+        for cls, par in (("TrefethenGeneral", 5), ("TrefethenStripGeneral", 1.6), ("TrefethenGeneral", 1)):
+            store["p"][:], store["w"][:] = b1.points, b1.weights
+            first = getattr(og, cls)(n, Buffered, par)
+            fp = first.points.copy()
+            store["p"][:], store["w"][:] = b2.points, b2.weights            # same objects, new contents
+            second = getattr(og, cls)(n, Buffered, par)
+            want2 = getattr(og, cls)(n, og.FejerFirst, par)
+            if not (np.allclose(second.points, want2.points, rtol=1e-13, atol=1e-15) and np.allclose(second.weights, want2.weights, rtol=1e-13, atol=0)):
+                ctx.fail("oracle", f"onedgrid.{cls}:modified-in-place", f"{cls}({n}, <class handing out the same two array objects>, {par}) after the arrays were overwritten with the FejerFirst rule: "
+                         f"not the rule built on FejerFirst (first node {float(second.points[0])!r} vs {float(want2.points[0])!r}; before the overwrite {float(fp[0])!r})",
+                         witness={"class": cls, "npoints": n, "param": par})
+
+
+PAIRS = [("og.ClenshawCurtis(7)", "og.ClenshawCurtis(8)"), ("og.TrefethenStripGeneral(6, og.ClenshawCurtis, 1.4)", "og.TrefethenStripGeneral(6, og.MidPoint, 1.4)"),
+         ("og.GaussLaguerre(5)", "og.GaussLaguerre(5, -0.5)"), ("og.TrefethenCC(6, 5)", "og.TrefethenGC2(6, 5)"), ("og.TanhSinh(7, 0.1)", "og.SingleTanh(7, 0.1)"),
+         ("og.FejerFirst(5)", "og.FejerSecond(5)"), ("og.ExpSinh(5, 0.3)", "og.LogExpSinh(5, 0.3)"), ("og.Simpson(7)", "og.Trapezoidal(7)"),
+         ("og.TrefethenGeneral(6, og.GaussChebyshev, 9)", "og.TrefethenGeneral(6, og.GaussChebyshevType2, 9)"),
+         ("og.UniformInteger(4)", "og.MidPoint(4)"), ("og.TrefethenStripCC(9, 1.1)", "og.TrefethenStripCC(9, 2.5)")]
+
+
+def _oracle_pairs(ctx, og, rng):
+    """Class 26: state shared between instances.  Two rules that differ in one hidden dependency (odd / even size, a base with
+    or without nodes at the end points, alpha = 0 or not, the sibling class) built in either order, each in its own fresh
+    interpreter (A then B; B then A); every answer must be the one obtained when the rule is the first thing the process
+    builds, and both objects stay what they were after the other one exists."""
+    import json
+    import os
+    import subprocess
+    import sys
+    env = dict(os.environ)
+    if os.environ.get("GRID_REPO"):
+        env["PYTHONPATH"] = os.path.join(os.environ["GRID_REPO"], "src") + os.pathsep + env.get("PYTHONPATH", "")
+    ab = [x for a, b in PAIRS for x in (a, b, a)]
+    ba = [x for a, b in PAIRS for x in (b, a, b)]
+    res = []
+    for order in (ab, ba):
+        p = subprocess.run([sys.executable, "-c", FRESH, json.dumps(order)], env=env, cwd="/", capture_output=True, text=True, timeout=300)
+        res.append(next(json.loads(l[2:]) for l in p.stdout.splitlines() if l.startswith("@@")))
+    for k, (a, b) in enumerate(PAIRS):
+        ra = [res[0][3 * k], res[0][3 * k + 2], res[1][3 * k + 1]]     # a first; a after b; a after b in the other process
+        rb = [res[1][3 * k], res[1][3 * k + 2], res[0][3 * k + 1]]
+        for src, other, rr in ((a, b, ra), (b, a, rb)):
+            cls = src[3:src.index("(")]
+            ctx.count(["pair", src, other], nontrivial=True, tag="instance-pairs")
+            if any(r != rr[0] for r in rr[1:]) or isinstance(rr[0], str):
+                which = "built again after" if rr[1] != rr[0] else "built after"
+                snippet = (f"import warnings; warnings.filterwarnings('ignore')\nimport numpy as np, subprocess, sys\nfrom grid import onedgrid as og\n"
+                           f"first = {other}\ng = {src}\ncode = 'import warnings; warnings.filterwarnings(\"ignore\"); import numpy as np; from grid import onedgrid as og; g = {src}; print(repr(g.points.tolist() + g.weights.tolist()))'\n"
+                           f"alone = eval(subprocess.run([sys.executable, '-c', code], capture_output=True, text=True).stdout)\n"
+                           f"assert g.points.tolist() + g.weights.tolist() == alone, '{src} after {other} differs from {src} alone in a fresh process'\n")
+                ctx.fail("oracle", f"onedgrid.{cls}:instance-pair", f"{src} {which} {other} differs from {src} as the first construction of a fresh process"
+                         + (f" ({rr[0]} / {rr[1]} / {rr[2]})" if any(isinstance(r, str) for r in rr) else ""),
+                         witness={"call": src, "other": other}, snippet=snippet)
+    # in this process: both objects keep their values once the other exists
+    for a, b in PAIRS:
+        with warnings.catch_warnings():
+            warnings.simplefilter("ignore")
+            ga = _eval_src(og, a)
+            snap = (ga.points.copy(), ga.weights.copy())
+            gb = _eval_src(og, b)
+            gb.points[...] = gb.points * 1.0
+        if not (np.array_equal(ga.points, snap[0], equal_nan=True) and np.array_equal(ga.weights, snap[1], equal_nan=True)):
+            ctx.fail("oracle", f"onedgrid.{a[3:a.index('(')]}:instance-pair", f"{a} changed when {b} was built", witness={"call": a, "other": b})
+
+
 def oracle(ctx: Ctx, budget: str):
     """The property on the implementation: exact moments against rationals / mpmath, documented nodes and
     weights, weight = step x derivative of the node map (mpmath differentiation), order and domain.  Independent parts,
@@ -2312,6 +2728,11 @@ def oracle(ctx: Ctx, budget: str):
         ("shared-arguments", lambda: _oracle_shared_args(ctx, og, rng)),
         ("after-raise", lambda: _oracle_after_raise(ctx, og, rng)),
         ("shapes", lambda: _oracle_shapes(ctx, og, rng)),
+        ("block-sizes", lambda: _oracle_block_sizes(ctx, og, rng, ctx.thorough)),
+        ("node-order", lambda: _oracle_order(ctx, og, rng)),
+        ("precision-inputs", lambda: _oracle_precision_inputs(ctx, og, rng)),
+        ("modified-in-place", lambda: _oracle_inplace(ctx, og, rng)),
+        ("instance-pairs", lambda: _oracle_pairs(ctx, og, rng)),
         ("guards", lambda: _oracle_guards(ctx, og)),
     ])
 
